@@ -102,7 +102,7 @@ ERR_DISC = Ob("C14-E1", "R-ERR", "no Result is discarded on the write path (stat
 JOIN_RESULTS = Ob("C14-E2", "R-ERR", "the Result of every joined write task is propagated", DU.ob_join_results, floor=9)
 WRITE_LOOPS = Ob("C13-T2", "R-TERM", "every loop in bbiwrite/bigwigwrite/bigbedwrite/beddata/tempfilebuffer is classified as terminating (A/B/C/R/W)", TM.ob_write_loops, floor=10)
 RTREE_LOOP = Ob("C13-T1", "R-TERM", "get_rtreeindex terminates for every section count (abstract domain {0,1,>=2})", TM.ob_rtree_loop)
-AUTOSQL_LOOPS = Ob("C19-M1", "R-TERM", "all loops of autosql.rs terminate; token loops exit at end of input (abstract run with every token = \"\")", TM.ob_autosql_loops, floor=7)
+AUTOSQL_LOOPS = Ob("C19-M1", "R-TERM", "all loops of autosql.rs terminate; token loops exit at end of input (abstract run with every token = \"\")", TM.ob_autosql_loops, floor=4)
 CHROM_ORDER = Ob("C13-G8", "R-PRED+R-EVAL", "chromosome-order refusal (serial: !allow && prev >= next; parallel: !allow && cur > next), empty input refused, foreign record in a slice refused", RF.ob_chrom_order, floor=2)
 PARSE_ERRORS = Ob("C13-G9", "R-ERR", "parse_bed / parse_bedgraph / BedFileStream::next turn every missing or unparsable column into Some(Err)", RF.ob_parse_errors, floor=3)
 INPUT_PANICS = Ob("C13-P1", "R-PANIC", "no unwrap/expect on a value parsed from the data input in the converter CLIs, sources and parsers", RF.ob_input_panics)
